@@ -10,7 +10,7 @@ From Coq Require Import Permutation.
 From Proofs Require Import WriterProofs WriterProofsAtom WriterProofsTokens WriterProofsStream WriterProofsClosures WriterProofsRefuted
                            WriterWfAtoms WriterWfFlatten WriterWfStream WriterWfDfs WriterWfEvents WriterWfTree WriterWfClosures WriterWfParens
                            WriterWfComplete WriterWfFlatten2 WriterWfDistinct WriterWfFinal WriterWfRun
-                           WriterWfFuelDfs WriterWfFuelFlat WriterWfFuelRun WriterWfFuelBfs WriterSeqFlatten WriterSeqTree.
+                           WriterWfFuelDfs WriterWfFuelFlat WriterWfFuelRun WriterWfFuelBfs WriterSeqFlatten WriterSeqTree WriterSeqAtoms.
 Import ListNotations.
 Open Scope Z_scope.
 
@@ -482,3 +482,18 @@ Theorem C02_read_write_graph_partial : forall g t smi aty atk rings bnd strong,
              parse (ctoks aty atk rings bnd smi) strong = denote strong tr.
 Proof. exact flatten_parse_denote. Qed.
 Print Assumptions C02_read_write_graph_partial.
+
+(* read_write_graph, atoms clause at the level of the reader's parser: whenever Parser.parse accepts the reader tokens of a written
+   token list, the atom list of the parsed record is the list of the written atoms IN WRITTEN ORDER, each with the dictionary of
+   its token (for ANY token list: C02_parse_atoms; for the writer's lists: C02_written_atoms_parsed) *)
+Theorem C02_parse_atoms : forall ts strong rec, parse ts strong = Ok rec -> p_atoms rec = flat_map atom_part ts.
+Proof. exact parse_atoms. Qed.
+Print Assumptions C02_parse_atoms.
+
+Theorem C02_written_atoms_parsed : forall aty atk rings bnd,
+  (forall n, zmem (aty n) [0; 8] = true) -> (forall n, forallb (fun r : option token * Z => bond_ok (fst r)) (rings n) = true) ->
+  (forall p c, bond_ok (bnd p c) = true) ->
+  forall smi strong rec,
+    parse (ctoks aty atk rings bnd smi) strong = Ok rec -> p_atoms rec = map (fun n => strip_stereo (atk n)) (atoms_of smi).
+Proof. exact written_atoms_parsed. Qed.
+Print Assumptions C02_written_atoms_parsed.
